@@ -305,6 +305,18 @@ def answerWords (c : Cache) : List String → Cache × String
       | [a, b] => some (f64Unbits a.toNat!, f64Unbits b.toNat!)
       | _ => none
     (c, match cgrJudge S s ps with | none => "ok" | some i => s!"viol@{i}")
+  | ["oligocgrbig", k, sz, norm, _, rle] =>
+    -- as `oligocgr`, for one very long record given run-length encoded
+    let k := k.toNat!; let S := sz.toNat!; let norm := norm == "1"
+    let s := (rle.splitOn "+").foldl (fun acc part =>
+      match part.splitOn "*" with
+      | [b, n] => acc ++ List.replicate n.toNat! b.toNat!
+      | _ => acc) ([] : List Nat)
+    let (c, pm) := c.get k
+    match oligoCgrRow pm k S norm s with
+    | none => (c, "err")
+    | some row =>
+      (c, joinWith "|" ["ok", joinWith "," (row.map fun t => s!"{f64Bits t.1}:{f64Bits t.2.1}:{f64Bits t.2.2}")])
   | ["oligocgr", k, sz, norm, hx] =>
     let k := k.toNat!; let S := sz.toNat!; let norm := norm == "1"; let s := unhex hx
     let (c, pm) := c.get k
@@ -321,7 +333,10 @@ def answerWords (c : Cache) : List String → Cache × String
     let (c, pm) := c.get k
     let (c, cl) := c.canon k
     let hdrSpec := if header then joinBytes delim (cl.map (decodeSpec k)) ++ [10] else []
-    let specFile := hdrSpec ++ (rs.map fun s => rowText norm delim (oligoRowSpecWith cl k s) (windowCount k s)).flatten
+    -- beyond 5000 bytes the quadratic specification columns are filled from the model's counts (`oligoCounts_eq_spec`)
+    let specFile := hdrSpec ++ (rs.map fun s =>
+      if s.length > 5000 then let (cs, t) := oligoCounts pm k s; rowText norm delim cs t
+      else rowText norm delim (oligoRowSpecWith cl k s) (windowCount k s)).flatten
     let hdrModel := if header then joinBytes delim (pm.posKmer.map (numericToKmer k)) ++ [10] else []
     let modelFile := hdrModel ++ (rs.map fun s => oligoRowText pm k norm delim s).flatten
     let rowLen := match rs with | [] => 0 | s :: _ => (oligoRowText pm k norm delim s).length
